@@ -31,6 +31,32 @@ Third wave (alphabets in mc/domains/w3_c06.py):
   widened, none, the single point T_ref) on the five base groups as
   ThermochemIncomplete, ThermochemGroup and ThermochemRawData; after each
   accepted call the object must report the new range and is judged on the grid.
+
+Fourth wave (alphabets in mc/domains/w4_c06.py):
+* oracle repaired: an answer WITHOUT any signal at a temperature outside the
+  range is a violation whether or not the object has data for the property
+  (the outside clause of the statement carries no has-data qualifier).  Until
+  then such an answer was tallied as 'outside:no-data' when a constituent
+  lacked the data, i.e. exactly when an implementation that leaves that
+  constituent out of the sum answers silently; the tally was zero on the
+  unchanged tree (missing data raises);
+* family SETRANGE, pre-evaluated histories: every sequence above is run a
+  second time on an object that is evaluated - and judged - on the grid BEFORE
+  the first call; in these histories every step (the one before the first
+  call included) probes the union of the grids of all ranges the history goes
+  through, so every temperature asked for after a set_range() was asked for
+  on the same object before it, on whichever side of the then-current range
+  it fell (inside then outside, outside then inside, ...);
+* family MIX: estimates on a constructor-built library over a partner group
+  (wide range with a six-point table, one-point table, no table; thorough also
+  narrow four-point) and a group LACKING data (no table / no table and no S /
+  no table and no H / table but no H / table but no S / table only) whose
+  declared range is the partner's, cut above, cut below, cut on both sides,
+  wider, and - table-less shapes only - none, excluding T_ref, the single
+  point T_ref; x 4 count pairs (1,1) (2,-1) (1,0) (0,1) x both orders of the
+  mapping; thorough adds triples partner + two lacking groups under every
+  ordered pair of distinct placements.  Expected range / has-data from a
+  dictionary model of the descriptions.
 """
 import math
 
@@ -39,28 +65,13 @@ from ..models import thermoref as tr
 from ..domains import estimates as E
 from ..domains import libs
 from ..domains import w3_c06 as W3
+from ..domains import w4_c06 as W4
 from . import c05
 
 LEVEL = 'exploration'
 LIBS = libs.LIBS + ['synthetic']
-BOUND = {t: 'family K of C05 (%s tier) x 3 classes; every group of 9 libraries '
-            '+ synthetic; all unit, class-pair and class-triple mappings; '
-            'inside grid (ends, middle, T_ref, knots, midpoints) and outside '
-            'grid (one ulp, 1e-6 relative, 100 K beyond each end; 0 K; -10 K); '
-            'plus every constituent\'s T_ref, table points and range ends on '
-            'whichever side of the range they fall; Cp for temperature arrays '
-            '(float and integer dtype, 3 positions of the outside element) on '
-            'every object with a range; family Z: 2 classes x 3 data shapes x 2 '
-            'T_ref x (no table, one-point table) x 9 placements of the declared '
-            'range relative to T_ref = 216 correlations; family HIST: 25 '
-            'mappings over a 5-group constructor-built library x all ordered '
-            'selections of <= %d of the 2-3 Update() pieces of each group x '
-            'with/without a prior Estimate = %d histories; family SETRANGE: '
-            'all sequences of <= 2 set_range() calls over 6 placements x 5 base '
-            'groups x 3 classes'
-            % (t, W3.MAXLEN[t], sum(sum(1 for _ in W3.histories(m, W3.MAXLEN[t]))
-                                    for m in W3.MAPPINGS))
-         for t in ('quick', 'thorough')}
+# BOUND is computed at the end of the module (it counts the enumerated
+# histories with the generators defined below)
 RULE = ('every correlation / estimate is evaluated for Cp/R, H/RT, S/R at '
         'every grid temperature; outside: the call must raise, or (only when a '
         'constituent has no heat-capacity data) record an IncompleteDataWarning; '
@@ -75,7 +86,15 @@ RULE = ('every correlation / estimate is evaluated for Cp/R, H/RT, S/R at '
         'must report the intersection of the ranges its groups have at that '
         'moment (dictionary model of the merged pieces); the estimate '
         'requested last is put on the grid, with has-data / no-heat-capacity '
-        'taken from the model, not from the library')
+        'taken from the model, not from the library.  Outside the range an '
+        'answer without error or warning is a violation also for a property '
+        'the object has no data for.  SETRANGE: after every accepted '
+        'set_range() the object reports the new range and is judged on the '
+        'grid against it; in the pre-evaluated histories also before the '
+        'first call, every step on the union of the grids of the history.  '
+        'MIX: the estimate reports the intersection of the declared ranges '
+        '(dictionary model) and is judged on the grid, has-data / '
+        'no-heat-capacity taken from the descriptions')
 ASSUMPTIONS = ['numpy floating scalars count as plain numbers; Quantity objects '
                'and arrays do not',
                'estimates whose constituent ranges are disjoint are not judged '
@@ -88,11 +107,20 @@ ASSUMPTIONS = ['numpy floating scalars count as plain numbers; Quantity objects 
                'Update() merges ranges as their union (C13 judges that); the '
                'HIST model uses it to predict the range of a merged group',
                'arrays are offered to get_CpoR only (H/RT and S/R do not accept '
-               'arrays on any path)']
+               'arrays on any path)',
+               'a set_range() call that raises ends its history without a '
+               'verdict (statement silent about which ranges may be set)',
+               'a group WITH a heat-capacity table and without a declared range '
+               'is not a constituent in the MIX family (it reports no range but '
+               'enforces its table span; statement silent about which is its '
+               'valid range)',
+               'a constituent with count 0 still takes part in the range and '
+               'in the signalling (as in the shipped-library estimate family)']
 MANIFEST = dict(
     technique='exhaustive enumeration of correlations/estimates x boundary '
               'temperature grid; operation sequences Estimate/Update on a '
-              'small library vs a dictionary model',
+              'small library and evaluate/set_range on single correlations vs '
+              'a dictionary model',
     text='All members of the synthetic correlation family, all shipped groups '
          'and all small estimates are evaluated just inside, at, one ulp / '
          '1e-6 / 100 K outside each range bound, at 0 K and -10 K and at every '
@@ -105,7 +133,15 @@ MANIFEST = dict(
          'again after Update() changed a constituent (all histories of <= 2 '
          'updates, thorough 3, over a five-group library), and for '
          'correlations without a table whose declared range is placed in '
-         'every way relative to the reference temperature.',
+         'every way relative to the reference temperature.  Single '
+         'correlations are taken through every sequence of <= 2 set_range() '
+         'calls, without and with an evaluation on the grid before the first '
+         'call (in the latter, every temperature of the history is asked for '
+         'before and after each call).  Estimates that mix a complete group with a group '
+         'lacking the table, H or S - the lacking one bounding the range from '
+         'above, below, both sides or not at all - must signal outside the '
+         'range for every property, also the one the lacking group has no '
+         'data for.',
     note='Temperatures are grid points; disjoint constituent ranges are not '
          'in the alphabet; estimate objects made before an Update() are not '
          'judged afterwards.',
@@ -188,10 +224,14 @@ def judge(R, tag, obj, rng, knots, tref, cons, wit, expect_data, special=(),
                 if 'IncompleteDataWarning' in r[2] and nocp:
                     label = 'outside:array-warned(no Cp data)'
                     continue
-                if not expect_data('get_CpoR'):
-                    label = 'outside:array-no-data'
-                    continue
-                R.outcomes['outside:array-unsignalled'] += 1
+                # (fourth wave) an answer without any signal outside the range
+                # breaks the statement whether or not the object has data for
+                # the property: the outside clause carries no has-data
+                # qualifier.  Until then such an answer was tallied as
+                # 'outside:array-no-data' and let through (never observed on
+                # the unchanged tree, where missing data raises).
+                R.outcomes['outside:array-unsignalled%s' % (
+                    '' if expect_data('get_CpoR') else '(no data expected)')] += 1
                 key = 'outside-unsignalled:%s:array' % tag
                 if keyfn is not None:
                     key = keyfn(key, T, 'get_CpoR')
@@ -210,10 +250,11 @@ def judge(R, tag, obj, rng, knots, tref, cons, wit, expect_data, special=(),
                 R.outcomes['outside:raises'] += 1
             elif 'IncompleteDataWarning' in r[2] and nocp:
                 R.outcomes['outside:warned(no Cp data)'] += 1
-            elif not expect_data(prop):
-                R.outcomes['outside:no-data'] += 1
             else:
-                R.outcomes['outside:unsignalled'] += 1
+                # (fourth wave) also when the model says the object has no
+                # data for prop: see the array branch above
+                R.outcomes['outside:unsignalled%s' % (
+                    '' if expect_data(prop) else '(no data expected)')] += 1
                 side = 'below' if T < rng[0] else 'above'
                 near = 'near' if (abs(T - rng[0]) < 1 or abs(T - rng[1]) < 1) else 'far'
                 if T == tref:
@@ -223,8 +264,10 @@ def judge(R, tag, obj, rng, knots, tref, cons, wit, expect_data, special=(),
                     key = keyfn(key, T, prop)
                 R.violation(key,
                             '%s: %s(%r) outside the range %r returned %r without '
-                            'error or incomplete-data warning' % (
-                                wit.get('what'), prop, T, rng, r[1]), wit)
+                            'error or incomplete-data warning%s' % (
+                                wit.get('what'), prop, T, rng, r[1],
+                                '' if expect_data(prop) else
+                                ' (and a constituent has no data for it)'), wit)
 
 
 def run_K(R, N, spacing, shape, pl, tier, only=None):
@@ -496,6 +539,20 @@ def setrange_sequences(g):
             yield [a, b_]
 
 
+def setrange_histories(g):
+    """(pre, seq).  pre=False: the third-wave histories, unchanged.  pre=True
+    (fourth wave): the object is ALSO evaluated - and judged - on the grid
+    before the first call, and every step of the history (the one before the
+    first call included) probes the union of the grids of all ranges the
+    history goes through, so that every temperature asked for after a
+    set_range() was asked for on the same object before it as well, on
+    whichever side of the then-current range it fell."""
+    for seq in setrange_sequences(g):
+        yield False, seq
+    for seq in setrange_sequences(g):
+        yield True, seq
+
+
 def run_setrange(R, cls_name, g, only=None):
     import pgradd.ThermoChem as tc
     from pgradd.ThermoChem.raw_data import ThermochemRawData
@@ -503,19 +560,48 @@ def run_setrange(R, cls_name, g, only=None):
     knots = sorted(b['cp'])
     if cls_name == 'RawData' and not knots:
         return
-    for seq in setrange_sequences(g):
+    stand = _Stand(dict(cp=b['cp'], H=b['H'], S=b['S']))
+
+    def expect(p):
+        return bool(b['cp']) if p == 'get_CpoR' else True
+    for pre, seq in setrange_histories(g):
         names = [n for n, _ in seq]
-        if only is not None and only != names:
+        if only is not None and only != (pre, names):
             continue
-        wit = dict(kind='setrange', cls=cls_name, group=g, seq=names,
-                   what='%s of base group %s after set_range %s' % (
-                       cls_name, g, ' then '.join('%s=%r' % x for x in seq)))
+        wit = dict(kind='setrange', cls=cls_name, group=g, seq=names, pre=pre,
+                   what='%s of base group %s %safter set_range %s' % (
+                       cls_name, g,
+                       '(evaluated on the grid before the first call) ' if pre else '',
+                       ' then '.join('%s=%r' % x for x in seq)))
         if cls_name == 'RawData':
             k = ThermochemRawData(b['H'], b['S'], knots, [b['cp'][t] for t in knots],
                                   W3.H_TREF, b['rng'])
         else:
             cls = tc.ThermochemIncomplete if cls_name == 'Incomplete' else tc.ThermochemGroup
             k = cls(b['H'], b['S'], dict(b['cp']), W3.H_TREF, b['rng'])
+        union = []
+        if pre:
+            union = W4.history_temperatures([b['rng']] + [r for _, r in seq],
+                                            knots, W3.H_TREF)
+            R.evals += 1
+            R.nontrivial += 1
+            got = k.get_range()
+            got = None if got is None else (float(got[0]), float(got[1]))
+            if got != b['rng']:
+                R.violation('setrange:range-reported:%s' % cls_name,
+                            '%s reports range %r before any call' % (wit['what'], got), wit)
+                continue
+            R.outcomes['setrange:evaluated-before-first-call'] += 1
+            if got is None:
+                # no range: judge() probes T_ref only (assumption 3); the other
+                # temperatures of the history are asked for here, unjudged, so
+                # that the object has seen them before the first call
+                for T in union:
+                    for prop in P3:
+                        R.evals += 1
+                        E.ev(getattr(k, prop), T)
+            judge(R, 'setrange:' + cls_name, k, got, knots, W3.H_TREF, [stand], wit,
+                  expect, special=union)
         for n, (name, rng) in enumerate(seq):
             R.evals += 1
             r = E.ev(k.set_range, rng)
@@ -530,11 +616,78 @@ def run_setrange(R, cls_name, g, only=None):
                             '%s reports range %r' % (wit['what'], got), wit)
                 break
             R.outcomes['setrange:accepted'] += 1
-            stand = _Stand(dict(cp=b['cp'], H=b['H'], S=b['S']))
             special = [W3.H_TREF] + [t for r_ in (b['rng'], rng) if r_ for t in r_]
             judge(R, 'setrange:' + cls_name, k, rng, knots, W3.H_TREF, [stand], wit,
-                  lambda p: (bool(b['cp']) if p == 'get_CpoR' else True),
-                  special=special)
+                  expect, special=special + union)
+
+
+# ------------------------------------------------------------- MIX family
+# (fourth wave) Estimates over a partner group and a group that LACKS the data
+# for some property, whose declared range is placed in every way relative to
+# the partner's (alphabets and the dictionary model in mc/domains/w4_c06.py).
+# The expected range, has-data and no-heat-capacity facts come from the
+# descriptions, not from the library.
+
+def _mix_corr(d):
+    import pgradd.ThermoChem as tc
+    return tc.ThermochemGroup(d['H'], d['S'], dict(d['cp']), W4.T_REF, d['rng'])
+
+
+def mix_cases(partner, lack, tier):
+    for c in W4.mix_cases(partner, lack):
+        yield c
+    if tier == 'thorough':
+        for c in W4.mix_triples(partner, lack):
+            yield c
+
+
+def run_mix(R, partner, lack, tier, only=None):
+    from pgradd.GroupAdd.Library import GroupLibrary
+    for case in mix_cases(partner, lack, tier):
+        if only is not None and only != case:
+            continue
+        groups = W4.mix_groups(case)
+        descs = [d for _, d, _ in groups]
+        wit = dict(kind='mix', case=case,
+                   what='constructor-built library, estimate %r' % (
+                       [(n, c, 'H=%r S=%r table=%r range=%r' % (
+                           d['H'], d['S'], sorted(d['cp']), d['rng']))
+                        for n, d, c in groups],))
+        R.evals += 1
+        want = W4.model_range(descs)
+        if len(set(str(d['rng']) for d in descs)) > 1:
+            R.nontrivial += 1
+        if want is not None and want[0] > want[1]:
+            # (thorough triples only) assumption 2
+            R.outcomes['unjudged(disjoint constituent ranges)'] += 1
+            continue
+        r = E.ev(lambda: GroupLibrary(None, dict(
+            (n, {'thermochem': _mix_corr(d)}) for n, d, _ in groups)))
+        if r[0] != 'ok':
+            R.violation('mix:library-refused:' + r[1],
+                        '%s: building the library raised %s' % (wit['what'], r[1]), wit)
+            continue
+        lib = r[1]
+        r = E.ev(lib.Estimate, dict((n, c) for n, _, c in groups), 'thermochem')
+        if r[0] != 'ok':
+            R.violation('mix:estimate-raises:' + r[1],
+                        '%s: Estimate raised %s' % (wit['what'], r[1]), wit)
+            continue
+        e = r[1]
+        got = e.get_range()
+        got = None if got is None else (float(got[0]), float(got[1]))
+        if got != want:
+            R.outcomes['mix:range-wrong'] += 1
+            R.violation('mix:estimate-range', '%s reports range %r, intersection of '
+                        'the declared ranges is %r' % (wit['what'], got, want), wit)
+            continue
+        R.outcomes['mix:range-intersection'] += 1
+        knots = sorted(set(t for d in descs for t in d['cp']))
+        special = [W4.T_REF] + [t for d in descs if d['rng'] for t in d['rng']]
+        judge(R, 'mix', e, want, knots, W4.T_REF, [_Stand(d) for d in descs], wit,
+              lambda p, descs=descs: W4.model_has(descs, p), special=special)
+    R.sample(dict(partner=partner, lacking=lack,
+                  cases=sum(1 for _ in mix_cases(partner, lack, tier))), limit=1)
 
 
 def run_hist(R, mi, tier, only=None):
@@ -569,6 +722,9 @@ def shards(tier, seed):
     for c in ('Incomplete', 'Group', 'RawData'):
         for g in W3.GROUPS:
             out.append(('setrange', c, g))
+    for partner in W4.PARTNER_NAMES[tier]:
+        for lack in W4.LACK_NAMES:
+            out.append(('mix', partner, lack))
     return out
 
 
@@ -584,6 +740,8 @@ def run_shard(shard, tier):
         run_hist(R, shard[1], tier)
     elif shard[0] == 'setrange':
         run_setrange(R, shard[1], shard[2])
+    elif shard[0] == 'mix':
+        run_mix(R, shard[1], shard[2], tier)
     else:
         run_estimates(R, shard[1], shard[2], shard[3])
     return R
@@ -599,7 +757,10 @@ def replay(w):
     elif w['kind'] == 'Z':
         run_Z(R, w['desc']['cls'], only=w['desc'])
     elif w['kind'] == 'setrange':
-        run_setrange(R, w['cls'], w['group'], only=w['seq'])
+        run_setrange(R, w['cls'], w['group'], only=(bool(w.get('pre', False)), w['seq']))
+    elif w['kind'] == 'mix':
+        c = w['case']
+        run_mix(R, c['partner'], c['lack'], 'thorough', only=c)
     elif w['kind'] == 'hist':
         m = [tuple(x) for x in w['mapping']]
         run_hist(R, W3.MAPPINGS.index(m), 'thorough', only=w['history'])
@@ -607,3 +768,36 @@ def replay(w):
         run_estimates(R, w['lib'], 0, 1, only=w['mapping'])
     return dict(violates=bool(R.violations),
                 detail='\n'.join(v['msg'] for v in R.violations[:5]) or 'holds')
+
+
+BOUND = {t: 'family K of C05 (%s tier) x 3 classes; every group of 9 libraries '
+            '+ synthetic; all unit, class-pair and class-triple mappings; '
+            'inside grid (ends, middle, T_ref, knots, midpoints) and outside '
+            'grid (one ulp, 1e-6 relative, 100 K beyond each end; 0 K; -10 K); '
+            'plus every constituent\'s T_ref, table points and range ends on '
+            'whichever side of the range they fall; Cp for temperature arrays '
+            '(float and integer dtype, 3 positions of the outside element) on '
+            'every object with a range; family Z: 2 classes x 3 data shapes x 2 '
+            'T_ref x (no table, one-point table) x 9 placements of the declared '
+            'range relative to T_ref = 216 correlations; family HIST: 25 '
+            'mappings over a 5-group constructor-built library x all ordered '
+            'selections of <= %d of the 2-3 Update() pieces of each group x '
+            'with/without a prior Estimate = %d histories; family SETRANGE: '
+            'all sequences of <= 2 set_range() calls over 6 placements x 5 base '
+            'groups x 3 classes, each without and with an evaluation on the '
+            'grid before the first call (then every step probes the union of '
+            'the grids of all ranges of the history) = %d histories; family '
+            'MIX: %d partner groups x 6 lacking-data shapes x 5 (with table) / '
+            '8 (without) placements of the lacking group\'s range x 4 count '
+            'pairs x 2 orders%s = %d estimates'
+            % (t, W3.MAXLEN[t], sum(sum(1 for _ in W3.histories(m, W3.MAXLEN[t]))
+                                    for m in W3.MAPPINGS),
+               sum(sum(1 for _ in setrange_histories(g))
+                   for c in ('Incomplete', 'Group', 'RawData') for g in W3.GROUPS
+                   if c != 'RawData' or W3.BASE[g]['cp']),
+               len(W4.PARTNER_NAMES[t]),
+               ' + triples with two lacking groups under all ordered pairs of '
+               'distinct placements' if t == 'thorough' else '',
+               sum(sum(1 for _ in mix_cases(p_, l_, t))
+                   for p_ in W4.PARTNER_NAMES[t] for l_ in W4.LACK_NAMES))
+         for t in ('quick', 'thorough')}
